@@ -178,6 +178,31 @@ def m_dup_folder_discard(f, case, viol):
     return bool(paths) and all(any(_related(_unconf(p), c) and (_unconf(p) == c or _unconf(p).startswith(c + "/")) for c in cands) for p in paths)
 
 
+def m_conflicted_blocks_rmdir(f, case, viol):
+    """mechanism: both users wrote the same file P below folder D before the engine was quiet (=> one version is parked as
+    'P.conflicted' on one side only, by design never synchronised), and later D (or an ancestor) is deleted on the side that
+    does not hold the parked copy: the engine can never remove D on the other side (it is not empty), re-queues the delete, looks
+    at the parked file, finishes it, and starts over - for ever.  History: rmtree/rmdir of D preceded by create/write of one path
+    below D from both sides; the run never goes quiet (or differs only below D)."""
+    ops = user_ops(case)
+    cands = set()
+    for i, u in enumerate(ops):
+        if u[2] in ("rmtree", "rmdir"):
+            D = u[3]
+            both = {}
+            for v in ops[:i]:
+                if v[2] in ("create", "write") and v[3].startswith(D + "/"):
+                    both.setdefault(v[3], set()).add(v[1])
+            if any(len(sd) == 2 for sd in both.values()):
+                cands.add(D)
+    if not cands:
+        return False
+    if viol["cls"] == "nonquiescent":
+        return True
+    paths = _diff_paths(viol)
+    return bool(paths) and all(any(_unconf(p) == c or _unconf(p).startswith(c + "/") for c in cands) for p in paths)
+
+
 def m_event_exc(f, case, viol):
     """mechanism: an exception raised by the state API (state.py) escaped an event-intake step while an event was being
     applied; the provider's read position had already moved past that event, so it is never delivered again."""
@@ -487,7 +512,7 @@ def m_moved_out_race(f, case, viol):
     return _paths_related_to_moves(viol, ok, case)
 
 
-MATCHERS = {"dup_folder_discard": m_dup_folder_discard, "missing_resurrect": m_missing_resurrect, "pathless_recreate": m_pathless_recreate, "declined_conflict": m_declined_conflict, "mock_path_ci": m_mock_path_ci, "request_stale_entry": m_request_stale_entry, "late_parent_event": m_late_parent_event, "crash_dup_entry": m_crash_dup_entry, "boundary_folder_move": m_boundary_folder_move, "moved_out_race": m_moved_out_race, "crash_rename_over": m_crash_rename_over, "event_exc": m_event_exc, "half_transfer": m_half_transfer, "history": m_history, "rename_race": m_rename_race, "dirdelete_race": m_dirdelete_race}
+MATCHERS = {"conflicted_blocks_rmdir": m_conflicted_blocks_rmdir, "dup_folder_discard": m_dup_folder_discard, "missing_resurrect": m_missing_resurrect, "pathless_recreate": m_pathless_recreate, "declined_conflict": m_declined_conflict, "mock_path_ci": m_mock_path_ci, "request_stale_entry": m_request_stale_entry, "late_parent_event": m_late_parent_event, "crash_dup_entry": m_crash_dup_entry, "boundary_folder_move": m_boundary_folder_move, "moved_out_race": m_moved_out_race, "crash_rename_over": m_crash_rename_over, "event_exc": m_event_exc, "half_transfer": m_half_transfer, "history": m_history, "rename_race": m_rename_race, "dirdelete_race": m_dirdelete_race}
 
 
 def match_one(f, case, viol):
